@@ -192,9 +192,10 @@ class StructCore(object):
         offset = 0
         for f, v in zip(self.fields, data):
             p = f.pack(v,psize)
-            if not self.packed:
+            if self.union is False and not self.packed:
                 pad = f.align(offset,psize) - offset
                 p = b"\0" * pad + p
+            offset += len(p)
             parts.append(p)
         if self.union is False:
             res = b"".join(parts)
